@@ -55,5 +55,476 @@ def gen():
     return inv
 
 
+# --------------------------------------------------------------------------
+# accessor correspondence: V (harness JSON notation) -> Coq term
+
+
+_SAFE = set("abcdefghijklmnopqrstuvwxyzABCDEFGHIJKLMNOPQRSTUVWXYZ0123456789_.- :=")
+
+
+def _cstr(s):
+    if any(c not in _SAFE for c in s):
+        raise ValueError("string not representable")
+    return '"%s"' % s
+
+
+def _z(n):
+    n = int(n)
+    return "(%d)%%Z" % n
+
+
+def _fl(s):
+    if s == "NaN":
+        return "FNaN"
+    if s == "+Inf":
+        return "(FInf false)"
+    if s == "-Inf":
+        return "(FInf true)"
+    from fractions import Fraction
+    fr = Fraction(float(s))          # the float64 the harness built
+    t = int(fr)                      # truncation toward zero
+    return "(FFin %s %s)" % (_z(t), "true" if fr == t else "false")
+
+
+_IK = {"i": "KInt", "i8": "KInt8", "i16": "KInt16", "i32": "KInt32", "i64": "KInt64", "u": "KUint", "u8": "KUint8",
+       "u16": "KUint16", "u32": "KUint32", "u64": "KUint64", "id": "KID"}
+
+
+def coq_value(v):
+    """Coq term of Safety.Values.value for a harness value; ValueError when
+    it is outside what the model's notation covers."""
+    if not v:
+        return "VNil"
+    (k, x), = v.items()
+    if x is None and k in ("l", "la", "ls", "lid", "li", "mk"):
+        x = []
+    if x is None and k in ("d", "m", "ms"):
+        x = {}
+    if k == "b":
+        return "(VBool %s)" % ("true" if x else "false")
+    if k in _IK:
+        return "(VInt %s %s)" % (_IK[k], _z(x))
+    if k == "f":
+        return "(VFloat KF64 %s)" % _fl(x)
+    if k == "f32":
+        return "(VFloat KF32 %s)" % _fl(x)
+    if k == "s":
+        return "(VStr %s)" % _cstr(x)
+    if k == "uri":
+        return "(VURI %s)" % _cstr(x)
+    if k == "bin":
+        return "(VBytes %s)" % _cstr(bytes.fromhex(x).decode("latin1"))
+    lst = lambda xs: "[" + "; ".join(xs) + "]"
+    if k == "l":
+        return "(VList %s)" % lst(coq_value(e) for e in x)
+    if k == "la":
+        return "(VSliceAny %s)" % lst(coq_value(e) for e in x)
+    if k == "ls":
+        return '(VSliceOf "string" %s)' % lst("(VStr %s)" % _cstr(e) for e in x)
+    if k == "lid":
+        return '(VSliceOf "wamp.ID" %s)' % lst("(VInt KID %s)" % _z(e) for e in x)
+    if k == "li":
+        return '(VSliceOf "int" %s)' % lst("(VInt KInt %s)" % _z(e) for e in x)
+    pairs = lambda d: lst("(%s, %s)" % (_cstr(kk), coq_value(d[kk])) for kk in sorted(d))
+    if k == "d":
+        return "(VDict %s)" % pairs(x)
+    if k == "m":
+        return "(VMapAny %s)" % pairs(x)
+    if k == "ms":
+        return '(VMapOf "string" %s)' % lst("(%s, VStr %s)" % (_cstr(kk), _cstr(x[kk])) for kk in sorted(x))
+    if k == "mk":
+        seen, out = set(), []
+        for kv in x:
+            kj = json.dumps(kv[0], sort_keys=True)
+            if kv[0] and ("l" in kv[0] or "d" in kv[0] or "la" in kv[0] or "m" in kv[0]):
+                continue              # unhashable key: the harness skipped it too
+            if kj in seen:
+                raise ValueError("duplicate map key")
+            seen.add(kj)
+            out.append("(%s, %s)" % (coq_value(kv[0]), coq_value(kv[1])))
+        return "(VMapAnyKey %s)" % lst(out)
+    if k == "o":
+        return "(VOther %s)" % _cstr(x)
+    if k == "deep":
+        cur = '(VStr "leaf")'
+        for i in range(int(x)):
+            cur = "(VList [%s])" % cur if i % 2 == 0 else '(VDict [("k", %s)])' % cur
+        return cur
+    raise ValueError("unsupported value notation " + k)
+
+
+def coq_expect(c):
+    acc, ok, res = c["acc"], c["ok"], c["res"]
+    b = lambda x: "true" if x else "false"
+    if c.get("panicked") and not acc.startswith("bare:"):
+        raise RuntimeError("the real accessor %s PANICKED on %s" % (acc, json.dumps(c["v"])))
+    if acc in ("AsString", "AsURI"):
+        return '(XStr "%s" %s %s)' % (acc, b(ok), _cstr(res))
+    if acc in ("AsInt64", "AsID"):
+        return '(XInt "%s" %s %s)' % (acc, b(ok), _z(res))
+    if acc == "AsBool":
+        return "(XBool %s %s)" % (b(ok), b(res == "true"))
+    if acc == "AsFloat64":
+        return '(XOk "AsFloat64" %s)' % b(ok)
+    if acc.startswith("assert:"):
+        return '(XOk "%s" %s)' % (acc[7:], b(ok))
+    if acc in ("AsDict", "NormalizeDict"):
+        if res == "nil":
+            return '(XDict "%s" %s true [])' % (acc, b(ok))
+        keys = []
+        for kv in res.split(":")[1:]:
+            kk, _, vv = kv.partition("=")
+            keys.append("(%s, %s)" % (_cstr(kk), _cstr(vv)))
+        return '(XDict "%s" %s false [%s])' % (acc, b(ok), "; ".join(keys))
+    if acc == "AsList":
+        if res == "nil":
+            return "(XList %s true 0)" % b(ok)
+        return "(XList %s false %d)" % (b(ok), int(res[3:]))
+    if acc == "bare:string":
+        return "(XBare TString %s)" % b(bool(c.get("panicked")))
+    raise ValueError("unknown accessor " + acc)
+
+
+def accessor_cases(exe, tier):
+    """Run the real accessors, write coq/cases/C04Cases.v, compile it.
+    Returns dict(ok, cases, skipped, failed)."""
+    d = _dir()
+    out = os.path.join(d, "accessors.json")
+    extra = 150 if tier == "quick" else 1500
+    rc, log = common.run([exe, "accessors", "-out", out, "-seed", str(common.seed()), "-extra", str(extra)], timeout=300)
+    if rc != 0 or not os.path.exists(out):
+        return dict(ok=False, cases=0, skipped=0, failed="the harness could not run the accessors:\n" + log[-2000:])
+    cases = json.load(open(out))
+    terms, skipped = [], 0
+    for c in cases:
+        try:
+            terms.append("(%s, %s)" % (coq_value(c["v"]), coq_expect(c)))
+        except ValueError:
+            skipped += 1
+        except RuntimeError as e:
+            return dict(ok=False, cases=len(terms), skipped=skipped, failed=str(e), panicked=c)
+    body = ["(* written by tools/checks/c04.py on every run: what the REAL wamp accessors returned *)",
+            "From Coq Require Import String List ZArith Bool.",
+            "From Nexus Require Import Safety.Values Safety.Accessors Safety.Cases.",
+            "Import ListNotations.", "Open Scope string_scope.", "",
+            "Definition cases : list acase := ["]
+    body.append(";\n".join("  " + t for t in terms))
+    body += ["].", "", "Lemma accessor_models_agree : mismatches cases = [].", "Proof. vm_compute. reflexivity. Qed.",
+             "Eval vm_compute in (mismatches cases)."]
+    cdir = os.path.join(common.COQ, "cases")
+    os.makedirs(cdir, exist_ok=True)
+    vf = os.path.join(cdir, "C04Cases.v")
+    with open(vf, "w") as f:
+        f.write("\n".join(body) + "\n")
+    ok, log = common.coq_make(["Safety/Cases.vo"], timeout=900)
+    if not ok:
+        return dict(ok=False, cases=len(terms), skipped=skipped, failed="Safety/Cases.v does not compile:\n" + log[-2000:])
+    with common.Lock("coq"):
+        rc, log = common.run(["coqc", "-Q", ".", "Nexus", "-w", "-notation-overridden", "cases/C04Cases.v"], cwd=common.COQ, timeout=900)
+    res = dict(ok=rc == 0, cases=len(terms), skipped=skipped, failed="")
+    if rc != 0:
+        res["failed"] = log[-3000:]
+        # which cases disagree: evaluate without the lemma
+        alt = "\n".join(body[:-3] + ["Eval vm_compute in (mismatches cases)."])
+        with open(os.path.join(cdir, "C04CasesDbg.v"), "w") as f:
+            f.write(alt + "\n")
+        with common.Lock("coq"):
+            rc2, log2 = common.run(["coqc", "-Q", ".", "Nexus", "cases/C04CasesDbg.v"], cwd=common.COQ, timeout=900)
+        import re
+        m = re.search(r"=\s*\[([0-9;\s]*)\]", log2)
+        if m:
+            idx = [int(x) for x in m.group(1).replace(";", " ").split()]
+            kept = [c for c in cases if _representable(c)]
+            res["mismatches"] = [kept[i] for i in idx[:10] if i < len(kept)]
+    return res
+
+
+def _representable(c):
+    try:
+        coq_value(c["v"])
+        coq_expect(c)
+        return True
+    except (ValueError, RuntimeError):
+        return False
+
+
+# --------------------------------------------------------------------------
+# hostile streams
+
+
+def corpus_dir():
+    return os.path.join(common.VERIF, "corpus", PID)
+
+
+def run_streams(exe, tier, label, args, timeout):
+    """Run c04drive; returns (results dict or None, log)."""
+    out = os.path.join(_dir(), "results-%s.json" % label)
+    if os.path.exists(out):
+        os.remove(out)
+    cmd = [exe, "run", "-sites", sites_path(), "-tier", tier, "-seed", str(common.seed()), "-out", out] + args
+    rc, log = common.run(cmd, timeout=timeout)
+    if not os.path.exists(out):
+        return None, log
+    return json.load(open(out)), log
+
+
+def norm_func(name):
+    """translator '(*router.broker).publish$1' / runtime 'router.(*broker).publish.func1' -> comparable form"""
+    import re
+    name = name.replace("github.com/gammazero/nexus/v3/", "")
+    m = re.match(r"^\(\*?([\w/]+)\.(\w+)\)\.(.*)$", name)
+    if m:
+        name = "%s.%s.%s" % (m.group(1), m.group(2), m.group(3))
+    name = name.replace("(*", "").replace(")", "")
+    name = re.sub(r"\$\d+.*$", "", name)
+    name = re.sub(r"\.func\d+.*$", "", name)
+    return name
+
+
+def describe_site(s):
+    return "%s:%d %s [%s] %s" % (s["file"], s["line"], s["func"], s["class"], s["expr"][:80])
+
+
+def explains(f, site):
+    """Does the finding f (a process death) account for the unsafe site?"""
+    cls = site["class"]
+    sig = f["signature"]
+    frames = [norm_func(x) for x in (f.get("frames") or [])]
+    fn = norm_func(site["func"])
+    if cls == "peerclose":
+        return sig.startswith("close-of-closed-channel") or sig.startswith("send-on-closed-channel")
+    if cls == "msgsend":
+        return sig.startswith("nil-dereference")
+    if cls == "panic":
+        return sig.startswith("explicit:") and fn in frames
+    return fn in frames
+
+
+WHAT = {
+    "interface-conversion": "a bare type assertion on a client-controlled value panics the router",
+    "close-of-closed-channel": "a client peer is closed twice (outside the session handler's exit path)",
+    "send-on-closed-channel": "the router sends to a client peer that was already closed",
+    "nil-dereference": "a nil message / pointer is dereferenced while handling client input",
+    "index-out-of-range": "a client-controlled list is indexed without a length check",
+    "slice-bounds": "a client-controlled slice expression is out of range",
+    "nil-map-write": "a nil client-provided map is written",
+    "concurrent-map-access": "unsynchronised concurrent access to a map (fatal runtime error)",
+    "data-race": "data race reported by the race detector",
+    "stack-overflow": "unbounded recursion on client input",
+    "wedge": "the router stopped serving an uninvolved session after the hostile history",
+    "hang": "the router process did not answer any more",
+    "explicit": "an explicit panic() of the router is reachable with client input",
+}
+
+
+def what_of(f):
+    cls = f["signature"].split("@")[0].split(":")[0]
+    return "%s: %s (trigger: %s)" % (f["signature"], WHAT.get(cls, "the router process died"), f.get("trigger", "?"))
+
+
+def replay_obj_of(f, tier):
+    return {
+        "kind": "history", "signature": f["signature"], "what": what_of(f), "tier": tier, "seed": common.seed(),
+        "panic_message": f.get("message"), "frames": f.get("frames"), "reproduced": f.get("reproduced"),
+        "stderr": f.get("stderr"), "history": f.get("history"), "stream": f.get("stream"), "repo": common.REPO,
+    }
+
+
+# --------------------------------------------------------------------------
+
+
+def do_replay(path):
+    obj = json.load(open(path))
+    exe, log = common.go_build("./cmd/c04drive")
+    if exe is None:
+        print("cannot build the harness:\n" + log[-3000:], file=sys.stderr)
+        return 3
+    print("replay of %s" % path)
+    print("  recorded signature : %s" % obj.get("signature"))
+    print("  recorded what      : %s" % obj.get("what"))
+    if obj.get("kind") == "history" and obj.get("history"):
+        hp = os.path.join(_dir(), "replay-history.json")
+        with open(hp, "w") as f:
+            json.dump({"history": obj["history"]}, f)
+        print("MODEL   : Props/C04.v entry_never_panics / no_send_after_close / peer_closed_once hold only when the site table passes;")
+        print("          the recorded signature names the site class that breaks it (see docs/C04.md, 'signatures').")
+        rc, out = common.run([exe, "replay", "-history", hp, "-times", "3"], timeout=600)
+        print("IMPLEMENTATION (router in a child process, 3 runs):")
+        print(out)
+        died = '"router_died_or_wedged": true' in out
+        print("VERDICT : %s" % ("the router dies / stops serving on this history" if died else "the router survives this history on the current tree"))
+        return 1 if died else 0
+    # an obligation without a concrete input: re-decide it
+    print("MODEL   : obligation(s) %s" % obj.get("obligations"))
+    try:
+        inv = gen()
+    except RuntimeError as e:
+        print("IMPLEMENTATION: translator: %s" % e)
+        return 1
+    r = common.coq_props(PID, extra_files=EXTRA_COQ)
+    print("IMPLEMENTATION (inventory regenerated): %d unsafe sites by the mirror; Coq obligations %s" %
+          (len(inv["unsafe_client_sites"]), "hold" if r["ok"] else "FAIL:\n" + r["failed"][:1500]))
+    for i in inv["unsafe_client_sites"]:
+        print("   " + describe_site(inv["sites"][i]))
+    print("VERDICT : %s" % ("not shown" if not r["ok"] else "shown on the current tree"))
+    return 0 if r["ok"] else 1
+
+
 def main(tier, replay):
-    raise NotImplementedError
+    if replay:
+        return do_replay(replay)
+    import threading
+    T = common.Timer()
+    v = common.Verdict(PID)
+    cov = {"checker_cmd": "coqc 8.16.1 via make (coq/Props/C04.v, coq/Safety/Conformance.v, coq/cases/C04Cases.v)", "exhaustive": False}
+    assumptions = [
+        "translator genc04 reads the Go source faithfully (taint walk, guard recognition, close-path classification); unknown forms abort it",
+        "in-process peers hand the router non-nil message pointers (Go API contract; the code panics deliberately on nil)",
+        "application-supplied components (Authenticator, Authorizer, KeyStore, PublishFilter) keep their contracts",
+        "Go scheduler, memory model, data races: SAMPLED by the harness (and the -race build in the thorough tier), not proved",
+        "third-party decoders (ugorji codec, gorilla websocket) and transport/serialize reflection: sampled here, modelled by C14/C15",
+    ]
+
+    # 1. translator
+    try:
+        inv = gen()
+    except RuntimeError as e:
+        common.info("C04: translator: %s" % e)
+        v.violation({"kind": "broken-tie", "obligations": ["translator genc04"], "detail": str(e)[-3000:], "repo": common.REPO}, no_input=True)
+        cov.update(obligations=1, discharged=0, trusted_base=[], evaluations=0, distinct_nontrivial=0, rule="translator failed", samples=[])
+        common.write_evidence(PID, tier, "proof", cov, T.s(), v.violations, assumptions)
+        return v.exit_code()
+    sites = inv["sites"]
+    unsafe = [sites[i] for i in inv["unsafe_client_sites"]]
+
+    # 2. Coq obligations (in the background) while the harness is built and run
+    coq = {}
+    th = threading.Thread(target=lambda: coq.update(common.coq_props(PID, extra_files=EXTRA_COQ)))
+    th.start()
+
+    exe, blog = common.go_build("./cmd/c04drive")
+    if exe is None:
+        th.join()
+        raise RuntimeError("cannot build the harness against %s:\n%s" % (common.REPO, blog[-3000:]))
+
+    findings = {}
+    stats = {}
+
+    def absorb(label, res):
+        if res is None:
+            return
+        stats[label] = res
+        for f in res.get("findings") or []:
+            if f["signature"].startswith("harness:"):
+                raise RuntimeError("harness failure: %s %s" % (f["signature"], f.get("message")))
+            old = findings.get(f["signature"])
+            if old is None or (f.get("history") and len(f["history"].get("steps") or []) < len(old["history"].get("steps") or [])):
+                findings[f["signature"]] = f
+
+    workers = str(common.NPROC)
+    base = ["-workers", workers]
+    if os.path.isdir(corpus_dir()):
+        base += ["-corpus", corpus_dir()]
+    if tier == "quick":
+        res, log = run_streams(exe, "quick", "main", base + ["-budget", "80s"], timeout=600)
+    else:
+        res, log = run_streams(exe, "thorough", "main", base + ["-budget", "14m"], timeout=1500)
+    if res is None:
+        th.join()
+        raise RuntimeError("the harness produced no results:\n" + log[-3000:])
+    absorb("main", res)
+
+    # 3. accessor correspondence (needs the Coq lock: after the obligations)
+    th.join()
+    acc = accessor_cases(exe, tier)
+
+    # thorough: the same kind of streams under the race detector (sampling)
+    race_note = "not run (quick tier)"
+    if tier == "thorough":
+        rexe, rlog = common.go_build("./cmd/c04drive", race=True)
+        if rexe is None:
+            race_note = "race build failed: " + rlog[-300:]
+        else:
+            rres, rlog = run_streams(exe, "thorough", "race", ["-workers", str(max(2, common.NPROC // 2)), "-worker-exe", rexe, "-race",
+                                     "-streams", "burst,repeat,disconnect,random,states", "-budget", "8m"], timeout=1200)
+            if rres is None:
+                race_note = "race run produced no results: " + rlog[-300:]
+            else:
+                absorb("race", rres)
+                race_note = "%d histories, %d messages under -race, %d findings" % (rres["histories"], rres["messages_sent"], len(rres.get("findings") or []))
+
+    # 4. obligations that do not hold: aim the stream at the offending sites
+    obligations = coq.get("obligations", [])
+    discharged = coq.get("discharged", [])
+    broken = []
+    if not coq.get("ok"):
+        broken.append("Coq: " + (coq.get("failed") or "")[:600])
+    if not acc["ok"]:
+        broken.append("accessor correspondence: " + (acc.get("failed") or "")[:600])
+    unexplained = [s for s in unsafe if not any(explains(f, s) for f in findings.values())]
+    if (unexplained or (broken and not findings)) and (not coq.get("ok")):
+        keys = sorted({s["key"] for s in unexplained if s.get("key")})
+        targs = base + ["-budget", "4m" if tier == "quick" else "10m", "-streams", "typeconf,meta,fieldconf,states,repeat,disconnect"]
+        if keys:
+            targs += ["-keys", ",".join(keys + ["ppt_scheme", "match", "invoke"])]
+        common.info("C04: obligations broken, %d unexplained unsafe sites: targeted search (%s)" % (len(unexplained), ",".join(keys) or "all keys"))
+        tres, tlog = run_streams(exe, "thorough", "targeted", targs, timeout=1200)
+        absorb("targeted", tres)
+        unexplained = [s for s in unsafe if not any(explains(f, s) for f in findings.values())]
+
+    # 5. verdict
+    for sig in sorted(findings):
+        f = findings[sig]
+        v.finding(sig, replay_obj_of(f, tier), what_of(f), tag=sig.split("@")[0].replace(":", "-")[:40])
+    if broken and (unexplained or not findings):
+        obj = {"kind": "obligation", "obligations": broken, "repo": common.REPO,
+               "unsafe_sites_without_a_failing_input": [describe_site(s) for s in unexplained],
+               "failed_coq": (coq.get("failed") or "")[:3000], "accessor_mismatches": acc.get("mismatches"),
+               "searched": {k: {"histories": r["histories"], "messages_sent": r["messages_sent"]} for k, r in stats.items()}}
+        v.violation(obj, tag="obligation", no_input=True)
+
+    # 6. evidence
+    main_res = stats["main"]
+    samples = list(main_res.get("samples") or [])[:6]
+    for s in unsafe[:4]:
+        samples.append("unsafe site: " + describe_site(s))
+    for sig in sorted(findings)[:6]:
+        samples.append("finding: %s trigger=%s" % (sig, findings[sig].get("trigger")))
+    samples.append("accessor case: AsInt64(uint64 2^63) / AsID / AsDict(map[any]any ...) compared with the Coq models in-kernel")
+    trusted = ["Coq 8.16.1 kernel, vm_compute (site_table_ok, close_table_ok, delivery_ok, policy_table_ok, accessor cases)"]
+    for thm, txt in sorted((coq.get("assumptions") or {}).items()):
+        trusted.append("Print Assumptions %s: %s" % (thm, txt))
+    trusted += ["translator go/cmd/genc04 (go/parser, go/ast, go/types source importer)", "harness go/cmd/c04drive (generators, child-process supervision, signature extraction, shrinker)",
+                "Go 1.25 runtime (panic / fatal error reporting, race detector in the thorough tier)"]
+    n_obl = len(obligations) + 1
+    n_dis = len(discharged) + (1 if acc["ok"] else 0)
+    cov.update({
+        "obligations": n_obl, "discharged": n_dis, "trusted_base": trusted,
+        "obligation_names": obligations + ["cases/C04Cases.v:accessor_models_agree"],
+        "axioms": coq.get("axioms", []),
+        "evaluations": sum(r["messages_sent"] for r in stats.values()) + acc["cases"],
+        "distinct_nontrivial": sum(r["distinct_hostile_inputs"] for r in stats.values()),
+        "rule": "evaluations = hostile messages / byte strings actually submitted to the real router in child processes + accessor cases; "
+                "distinct_nontrivial = distinct (transport, serializer, message type, key or field position or frame shape, value kind / scenario step) "
+                "labels among the submitted hostile steps (a step counts only when labelled hostile by its generator; set-up, sync and probe traffic is not counted)",
+        "samples": samples,
+        "sites": {"total": len(sites), "client_or_derived": sum(1 for s in sites if s["origin"] != "internal"), "by_class": inv["summary"],
+                  "distinct_keys": len({k["key"] for k in inv["keys"]}), "unsafe_by_mirror": [describe_site(s) for s in unsafe], "policy": inv["policy"]},
+        "accessor_cases": {"compared_in_kernel": acc["cases"], "skipped_unrepresentable": acc["skipped"], "agree": acc["ok"]},
+        "streams": {k: {"histories": r["histories"], "steps": r["steps"], "messages_sent": r["messages_sent"], "distinct_hostile_inputs": r["distinct_hostile_inputs"],
+                        "by_stream": r["streams"], "steps_by_transport": r["steps_by_transport"], "hostile_by_message_type": r["hostile_by_message_type"],
+                        "hostile_by_value_kind": r["hostile_by_value_kind"], "keys": r["keys"], "value_kinds": r["value_kinds"],
+                        "worker_restarts": r["worker_restarts"], "isolated_child_runs": r["isolated_child_runs"],
+                        "histories_skipped_budget": r["histories_skipped_budget"], "wall_s": r["wall_s"], "race_build": r["race_build"]}
+                    for k, r in stats.items()},
+        "liveness_probe": "after every history: publish/event, call/invocation/yield/result, wamp.session.count, fresh attach (every 4th also rawsocket+websocket) by uninvolved sessions",
+        "race_tier": race_note,
+        "findings": [{"signature": s, "known": bool(common.match_known(PID, s)), "trigger": findings[s].get("trigger"), "reproduced": findings[s].get("reproduced"),
+                      "occurrences": findings[s].get("occurrences")} for s in sorted(findings)],
+        "partial": "theorem: value-level totality over the regenerated site table, close discipline / policy / nil-delivery of the models; "
+                   "sampling: scheduler, data races, decoders, liveness (wedging), fidelity of the translator",
+    })
+    common.write_evidence(PID, tier, "proof", cov, T.s(), v.violations, assumptions)
+    common.info("C04: %d/%d obligations, %d findings (%d known), %d messages, %.0fs" %
+                (n_dis, n_obl, len(findings), v.known, cov["evaluations"], T.s()))
+    return v.exit_code()
